@@ -390,7 +390,7 @@ def t_itemsloop(tree: ast.AST) -> int:
 
 def t_extractpred(tree: ast.AST) -> int:
     """every compound `if` test of a method (and/or/not/comparison over self and locals) extracted into a private predicate method
-    `_pred_N(self, <locals>)` of the same class and called in place (experimental - not part of the thorough tier)."""
+    `_pred_N(self, <locals>)` of the same class and called in place."""
     count = [0]
     for cls in ast.walk(tree):
         if not isinstance(cls, ast.ClassDef):
@@ -414,7 +414,7 @@ def t_extractpred(tree: ast.AST) -> int:
                     continue
                 free = sorted({x.id for x in ast.walk(t) if isinstance(x, ast.Name) and x.id in bound and x.id != "self"})
                 count[0] += 1
-                nm = f"_pred_{count[0]}"
+                nm = f"_pred_{cls.name}_{count[0]}"
                 m = ast.FunctionDef(name=nm, args=ast.arguments(posonlyargs=[], args=[ast.arg(arg="self")] + [ast.arg(arg=a) for a in free],
                                                                  kwonlyargs=[], kw_defaults=[], defaults=[]),
                                     body=[ast.Return(value=t)], decorator_list=[], type_params=[])
@@ -479,6 +479,7 @@ TRANSFORMS: List[Tuple[str, str, Callable[[ast.AST], int]]] = [
     ("earlyret", "every function body ending in `if c: A` turned into `if not c: return` + A", t_earlyret),
     ("itemsloop", "every `for k, v in d.items():` turned into `for k in d: v = d[k]`", t_itemsloop),
     ("extracttail", "the second half of every method body extracted into a new private method and called in place", t_extracttail),
+    ("extractpred", "every compound `if` test of a method extracted into a new private predicate method and called in place", t_extractpred),
 ]
 
 
